@@ -16,16 +16,23 @@ Rec == TLCGet(1)
 Header == "timestamp,event,heap"
 
 \* walk the A records of one log against the prescribed shapes; returns [why, sizeof]
+\* (in runs of 128 records: one recursion as deep as a log is long costs TLC quadratic time)
+RECURSIVE WalkRun(_,_,_,_,_,_)
+WalkRun(recs, shapes, j, last, total, sz) ==
+  IF j > last THEN [why |-> "more", sizeof |-> sz, total |-> total]
+  ELSE IF j + 1 > Len(recs) THEN [why |-> "missing-record", sizeof |-> sz, total |-> total]
+  ELSE LET r == recs[j + 1]  sh == shapes[j]  inc == r.heap - total IN
+       IF r.ev # "A" THEN [why |-> "not-an-A-record", sizeof |-> sz, total |-> total]
+       ELSE IF ~r.ts_numeric THEN [why |-> "timestamp-not-numeric", sizeof |-> sz, total |-> total]
+       ELSE IF inc <= 0 THEN [why |-> "not-strictly-increasing", sizeof |-> sz, total |-> total]
+       ELSE IF sh \in DOMAIN sz /\ sz[sh] # inc THEN [why |-> "size-depends-on-more-than-shape", sizeof |-> sz, total |-> total]
+       ELSE WalkRun(recs, shapes, j + 1, last, r.heap, IF sh \in DOMAIN sz THEN sz ELSE (sh :> inc) @@ sz)
 RECURSIVE Walk(_,_,_,_,_)
 Walk(recs, shapes, j, total, sz) ==
   IF j > Len(shapes) THEN [why |-> IF Len(recs) = Len(shapes) + 1 THEN "ok" ELSE "extra-records", sizeof |-> sz]
-  ELSE IF j + 1 > Len(recs) THEN [why |-> "missing-record", sizeof |-> sz]
-  ELSE LET r == recs[j + 1]  sh == shapes[j]  inc == r.heap - total IN
-       IF r.ev # "A" THEN [why |-> "not-an-A-record", sizeof |-> sz]
-       ELSE IF ~r.ts_numeric THEN [why |-> "timestamp-not-numeric", sizeof |-> sz]
-       ELSE IF inc <= 0 THEN [why |-> "not-strictly-increasing", sizeof |-> sz]
-       ELSE IF sh \in DOMAIN sz /\ sz[sh] # inc THEN [why |-> "size-depends-on-more-than-shape", sizeof |-> sz]
-       ELSE Walk(recs, shapes, j + 1, r.heap, IF sh \in DOMAIN sz THEN sz ELSE (sh :> inc) @@ sz)
+  ELSE LET last == IF j + 127 < Len(shapes) THEN j + 127 ELSE Len(shapes)
+           w == WalkRun(recs, shapes, j, last, total, sz) IN
+       IF w.why # "more" THEN [why |-> w.why, sizeof |-> w.sizeof] ELSE Walk(recs, shapes, last + 1, w.total, w.sizeof)
 Judge(r, sz) ==
   IF r.header # Header THEN [why |-> "header", sizeof |-> sz]
   ELSE IF Len(r.recs) = 0 \/ r.recs[1].ev # "S" \/ r.recs[1].heap # 0 \/ ~r.recs[1].ts_numeric THEN [why |-> "start-record", sizeof |-> sz]
